@@ -706,7 +706,10 @@ def eq_objects(uni, tier):
                  ((A.PLUS, 0), ("b", "s")), (("b", "s"), (A.PLUS, 0)), ((A.PLUS, 0), ("b", 0)), ((A.PLUS, 0), (A.PLUS, 0)),
                  ((r"b^\dagger", 0), ("b", 0)), ((r"a^\dagger", 0), ("a", "s"))]
     factors = [("1.0", 1.0), ("1", 1), ("(1+0j)", 1 + 0j), ("np.float64(1.0)", np.float64(1.0)), ("2.0", 2.0), ("-1.0", -1.0), ("1j", 1j),
-               ("0.0", 0.0), ("-0.0", -0.0)]
+               ("0.0", 0.0), ("-0.0", -0.0),
+               # the same number reached along two routes of floating-point arithmetic: equal up to round-off, different bit patterns.  Whatever == decides
+               # for such a pair, hash must agree with it (a tolerant == with an exact hash breaks sets and dicts of operators)
+               ("0.3", 0.3), ("0.1*3", 0.1 * 3), ("(0.1+0.2)", 0.1 + 0.2), ("1.0+2**-52", 1.0 + 2.0 ** -52), ("(0.3+0j)", 0.3 + 0j), ("0.1*3+0j", 0.1 * 3 + 0j)]
     if tier != "quick":
         factors += [("np.complex128(1j)", np.complex128(1j)), ("0.5", 0.5), ("np.int64(2)", np.int64(2))]
     out = []
